@@ -21,7 +21,7 @@ ENGINES = [
     dict(name='E5 call-sequence explorer', path='seq/callseq.cpp', serves_properties=['C01', 'C02', 'C04', 'C05', 'C06', 'C07', 'C08', 'C11', 'C13', 'C14', 'C17', 'C09'],
          kind_free_text='every sequence of calls up to a depth bound over a menu of 12-29 calls on LONG-LIVED forms, operator expressions, generators and splines (plus assignments / in-place updates of the argument splines, tracked by a reference state; objects on a second grid; temporary grids whose storage comes from a private LIFO arena so that address reuse is guaranteed); one pristine forked process per sequence; after every call: exact reference value, persistent operands unchanged, results of earlier calls unchanged, and (mutation-free menus) identity with the same call executed alone in a fresh process'),
     dict(name='E6 fault-position explorer', path='seq/faults.cpp', serves_properties=['C14', 'C10', 'C09'],
-         kind_free_text='every operation of a menu of 16 in-place updates and assignments on every (target window, operand window) pair of a 5-point grid is executed fault-free (counting its N scalar arithmetic operations) and then N times on fresh objects with the k-th scalar arithmetic operation throwing (k = 1..N): exactly one injected fault per execution, at every possible position; afterwards the target and the operands are unchanged, every object is valid, and the call repeated fault-free gives the fault-free result'),
+         kind_free_text='every operation of a menu of 18 in-place updates and assignments on every (target window, operand window) pair of a 5-point grid is executed fault-free (counting its N scalar arithmetic operations and its A allocations) and then N + A times on fresh objects with the k-th scalar arithmetic operation throwing (k = 1..N) or the k-th allocation failing with std::bad_alloc (k = 1..A): exactly one injected fault per execution, at every possible position; afterwards the target and the operands are unchanged, every object is valid, and the call repeated fault-free gives the fault-free result'),
     dict(name='E4 schedule explorer', path='sched/', serves_properties=['C18'],
          kind_free_text='stateless model checker for the implementation: compiler instrumentation (-fsanitize=thread) linked against an own runtime (scheduler at every synchronisation operation, vector-clock happens-before race detector, allocation shadow), iterative preemption bounding + state-cached DFS, every execution in a child forked from a pristine zygote'),
 ]
@@ -234,7 +234,7 @@ CHECKS['C12'] = dict(
     title='Interpolation reproduces the data with the promised smoothness and boundaries',
     level='exploration',
     technique='bounded-exhaustive enumeration of abscissa sets, orders, boundary-condition sets and right-hand sides on the real interpolation routine; exact half decided by exact evaluation of every condition with an exact elimination solver, unique solvability decided independently by exact rank of the reference formulation; bundled-solver half by exact evaluation of the conditions on the returned floating-point coefficients against a normwise backward-error bound',
-    level_text='Every abscissa set with 2..4 (thorough 2..5) nodes over the gap alphabet {1,1/2,3} ({1,1/2,3,1/8}), as a whole grid and as a window of a larger grid, orders 1..4, the default boundary set and every set of order-1 distinct (node, derivative) pairs, right-hand sides = all unit ordinates, all unit boundary values and a generic combination (the solution is linear in them). With the exact solver all conditions hold exactly; with the Eigen adapter (double, long double) every residual stays below 2^20 eps (N R |c| + |rhs|).',
+    level_text='Every abscissa set with 2..4 (thorough 2..5) nodes over the gap alphabet {1,1/2,3} ({1,1/2,3,1/8}), as a whole grid and as a window of a larger grid, orders 1..4, the default boundary set and every set of order-1 distinct (node, derivative) pairs, right-hand sides = all unit ordinates, all unit boundary values and a generic combination (the solution is linear in them). Bundled solver: additionally the generic right-hand side at the scales 2^-60 and 2^40 (absolute thresholds). With the exact solver all conditions hold exactly; with the Eigen adapter (double, long double) every residual stays below 2^20 eps (N R |c| + |rhs|).',
     level_note='Trusted: GMP; the reference formulation of the conditions (global monomial basis) in checks/c12_interp.cpp. The floating-point half is tolerance-based evidence on an alphabet, not a proof of backward stability; the largest observed residual/bound ratio is reported in counters.',
     units=lambda tier: [unit('exact', 'checks/c12_interp.cpp', 'exact'), unit('exact-chk', 'checks/c12_interp.cpp', 'chk'),
                         unit('eigen', 'checks/c12_interp.cpp', 'exact', flags=['-DVF_EIGEN'])],
@@ -595,10 +595,10 @@ for _cid in ('C14', 'C10'):
     _c['units'] = (lambda prev: (lambda tier: prev(tier) + [unit('faults', 'seq/faults.cpp', 'exact')]))(_c['units'])
     _c['viol_filter'] = fault_filter(_cid, _c.get('viol_filter'))
     _c['engine'] = _c['engine'] + ' + E6 fault-position explorer'
-    _c['guards'] = dict(_c['guards'], classes=_c['guards'].get('classes', []) + ['threw', 'op:t+=a2', 'op:t*=c', 'op:t=t*a0'], counters=_c['guards'].get('counters', []) + ['fault_positions'])
-CHECKS['C14']['level_text'] += ' Fault positions (E6): 16 in-place updates and assignments (+= -= with same and lower order, *= /=, converting assignment, results of + - * unary minus, operator applications and linearCombination assigned back) on every (target window, operand window) pair of a 5-point grid, each executed once per scalar arithmetic operation it performs with exactly that operation throwing (19 296 executions): a call that throws leaves its target and its operands unchanged.'
+    _c['guards'] = dict(_c['guards'], classes=_c['guards'].get('classes', []) + ['threw', 'threw:alloc', 'op:t+=a2', 'op:t*=c', 'op:t=t*a0', 'op:t=a2(copy)'], counters=_c['guards'].get('counters', []) + ['fault_positions'])
+CHECKS['C14']['level_text'] += ' Fault positions (E6): 18 in-place updates and assignments (copy and move assignment, += -= with same and lower order, *= /=, converting assignment, results of + - * unary minus, operator applications and linearCombination assigned back) on every (target window, operand window) pair of a 5-point grid, each executed once per scalar arithmetic operation it performs with exactly that operation throwing (19 296 executions) and once per allocation it performs with exactly that allocation failing (4 982 executions): a call that throws leaves its target and its operands unchanged.'
 CHECKS['C14']['technique'] += '; plus exhaustive single-fault injection: every position at which the scalar arithmetic inside an in-place operation can throw'
-CHECKS['C10']['level_text'] += ' Fault positions (E6): the same 16 operations with the k-th scalar arithmetic operation throwing, for every k: every object is valid after the failed call and the call repeated on the survivors gives the fault-free result.'
+CHECKS['C10']['level_text'] += ' Fault positions (E6): the same 18 operations with the k-th scalar arithmetic operation throwing or the k-th allocation failing, for every k: every object is valid after the failed call and the call repeated on the survivors gives the fault-free result.'
 CHECKS['C10']['technique'] += '; plus exhaustive single-fault injection into the scalar arithmetic of 16 mutating operations (invariants and usability after the failed call)'
 _c = CHECKS['C09']
 _c['units'] = (lambda prev: (lambda tier: prev(tier) + [unit('faults-san', 'seq/faults.cpp', 'san')]))(_c['units'])
